@@ -302,3 +302,40 @@ CLAIMED['C16'] = dict(
     design="3/C16")
 
 NOT_APPLICABLE = {}
+
+# layers added while the checks were being tested with seeded changes and behaviour-preserving changes (DESIGN.md 11, 11b)
+GROWTH = {
+    'C01': " Unbounded layer: integer abstractions CacheViewInt / SortCacheInt / DictsSpillInt of the three shared-state models - "
+           "TLC checks that the sequence-level models implement them (refinement), Apalache proves their inductive invariants for "
+           "every table length / cache limit / sample size. Also: 300-/600-row sequential, partial-then-full and lagging-iterator "
+           "histories over every stateful and catalogue view; edge cover of the models' state graphs replayed on the real views.",
+    'C02': " The property-level bound is NeedS (need + look-ahead + a small constant of 100 rows per stage, composed through the "
+           "pipeline), the exact need of the code as found is model-level; extractors are measured in bytes read through a counting "
+           "source at two file lengths; look / see styles as consumers.",
+    'C04': " Deterministic batches of numbers that are close but not equal across int / float / Decimal / bool (below float "
+           "resolution, beyond float range, around 2**53 and 2**63) are validated by OrderingTrace as well.",
+    'C05': " Recorded executions with 130-2100 rows spilling into up to 1100 chunk files; key spellings incl. index 0 and a field "
+           "named ''; mergesort with missing / header / over-long rows, presorted or not.",
+    'C06': " Variants: keys given as field indices with a wider natural key, inputs that are descending sort views.",
+    'C07': " Lookups into dictionary= mappings with shelve semantics, falsy value / key specs, a value profile whose keys collide in "
+           "every hash table, hash joins without a cache argument after both sources were edited.",
+    'C08': " Record operations over 4-field tables with permuted inner fields; strict spelled with other falsy / truthy values; "
+           "recorded executions on 300-700 rows.",
+    'C09': " Descending sort views as inputs; mergeduplicates with an equal-but-not-identical missing marker; 343-row recorded groupings.",
+    'C10': " Key spellings incl. index 0; include= / exclude= as a single string; hash-colliding key values.",
+    'C11': " Strategy.tla has a failing-pass action with completeness invariants (eager variant refuted); StrategyInt is proved "
+           "inductive by Apalache for histories of any length (incl. the action invariant CacheReplays) and Strategy refines it "
+           "(TLC); 343/700-row strategy differential; edit-consistency of 25 operators x strategy x (data | field order) edits.",
+    'C12': " A 5-field wide layer (every ordered selection for cut / cutout, movefield, int field names, Record access on short rows).",
+    'C13': " Nested row slices against composed islice; biselect(missing=); list cells against tuple references; string containers.",
+    'C14': " flags= sequences for capture / split / splitdown / sub / search; fields given by index; fromdicts(sample=1); int field names.",
+    'C15': " A byte-offset sweep of 136 KiB round trips puts every byte of a record on every buffer boundary.",
+    'C16': " Default batch sizes on 2500 rows, % and {} in prefixes, the table without any row.",
+    'C17': " DbLoadInt is proved inductive by Apalache for every number of rows and failure point, DbLoad refines it (TLC); "
+           "1000-2100 row loads failing at batch boundaries, schema= with a namesake, permuted headers in a sequence of loads.",
+    'C18': " A second failure kind (a row that cannot be pickled: dumping its chunk fails).",
+    'C19': " Built-in exception classes raised by converters; rows excluded by where= (ExcludedUntouched).",
+    'C20': " Exact contents for header-only inputs under six fill values.",
+}
+for _pid, _extra in GROWTH.items():
+    CLAIMED[_pid]['text'] += _extra
